@@ -9,8 +9,12 @@ checks = {
    text='Held on the executions produced: outcome storms, all/selected linear extensions of the six-gate connection-death order, unhooked mass deaths, stream exhaustion. A lost or duplicated reply on any (client, stream) in those runs is reported with the history and a goroutine dump. Says nothing about schedules the workloads did not produce.', ref='2/C01'),
  'C02': dict(cat='exploration', tech='runtime monitoring: token/prepared-id/kind identity oracle over recorded histories with unique tokens',
    text='Every reply observed (tens of thousands per quick run) is matched to the request sent on that (client, stream) through the unique token the backend echoes; covers equal stream ids on many clients, permuted backend replies, >10x recycling of all 2048 backend stream ids, exhaustion bursts, failover storms and concurrent re-prepares with a widened window.', ref='2/C02'),
+ 'C04': dict(cat='fault_enumeration', tech='runtime monitoring: fault enumeration with an oracle on the backend arrival log (no arrival k+1 unless outcome k cannot have applied the request) and on the final client frame',
+   text='Nine classes of requests that are not positively idempotent by construction (20 statement forms; prepared here / by another client / never through the proxy / forgotten by the host; batches; graph payload) x every complete outcome sequence for 1-2 hosts and PRNG walks for 3-4, plus connection loss after a partial reply and before the request is read.', ref='2/C04'),
  'C05': dict(cat='fault_enumeration', tech='runtime monitoring: fault enumeration of per-attempt outcomes against an executable model of the documented policy',
    text='Exhaustive enumeration of the complete outcome sequences of the documented decision tree for 1-3 hosts (quick) / 1-4 hosts (thorough) x request kind x idempotency class, plus PRNG walks for 3-4 hosts; every observed attempt trace (host order, outcome) and final client frame must equal the model. The four decision functions are driven over all retry counts 0-4 x field grids.', ref='2/C05'),
+ 'C06': dict(cat='exploration', tech='runtime monitoring of a pure function: PRNG grammar-based generation with ground truth by construction, metamorphic re-spelling oracle, hostile-input totality oracle in crash-isolated child processes',
+   text='40k (quick) / 2M (thorough) generated statements with truth IDEMP / NONIDEMP(reason) / EITHER x 4-6 re-spellings (letter case, whitespace kinds, terminator; lone CR and $$-strings as separate sub-checks), 40k / 2M hostile strings, nesting up to 1e5 (quick) / 16 Mi (thorough, one child process per case).', ref='2/C06'),
  'C07': dict(cat='exploration', tech='runtime monitoring: per-client sequential register model vs connection attributes echoed by the backend',
    text='Concurrent multi-client histories (versions v3/v4/v5/DSE, none/lz4/snappy) of USE variants and data requests; every data reply echoes keyspace/version/compression of the backend connection it ran on, compared with the client model in send order.', ref='2/C07'),
  'C08': dict(cat='exploration', tech='runtime monitoring: history oracle over merged client/backend logs (UNPREPARED never reaches the client; re-PREPARE text, acceptability and fail-over)',
